@@ -249,6 +249,40 @@ def gen_configs(rng, tier):
                 if mode2 == "or":
                     stop.append(("ravg", True, 1.0, "or", None))      # never met
                 cfgs.append(dict(burst, tag="stop-burst-%s-%s" % (k, mode2), stop=stop, iter="euler", calls=[(1.5, 0.02)], preclear=(mode2 == "and")))
+    # selectors: an element other than the first solute (ternary run), a phase other than the first (two-phase run); the thresholds are
+    # crossed at different steps by the selected and by the first element / phase
+    try:
+        mbase = dict(multi=True, phases=[dict(name="beta", gamma=0.05)], cap=500)
+        rm = K.run(dict(mbase, calls=[(1.0, 0.02)]))
+        dm = rm["model"].pData
+        nm = int(dm.n)
+        cB, cC = dm.composition[:nm + 1, 0], dm.composition[:nm + 1, 1]
+
+        def frac_thr(a, f):
+            return float(a[0] + f * (a[-1] - a[0]))
+        if nm > 20 and cB[-1] != cB[0] and cC[-1] != cC[0]:
+            for j, (el, a, f) in enumerate((("C", cC, 0.7), ("B", cB, 0.3), ("C", cC, 0.2))):
+                gt = bool(a[-1] > a[0])
+                cfgs.append(dict(mbase, tag="stop-element-%s-%d" % (el, j), stop=[("comp", gt, frac_thr(a, f), "or", el)], iter="euler" if j != 1 else "rk4",
+                                 calls=[(1.0, 0.02)], rerun=[(0.05, 0.05)] if j == 0 else None))
+            cfgs.append(dict(mbase, tag="stop-elements-and", stop=[("comp", bool(cC[-1] > cC[0]), frac_thr(cC, 0.6), "and", "C"), ("comp", bool(cB[-1] > cB[0]), frac_thr(cB, 0.3), "and", "B")],
+                             iter="euler", calls=[(0.5, 0.02), (0.5, 0.02)]))
+        two = dict(phases=[dict(name="beta", gamma=0.05), dict(name="gamma", gamma=0.06, xe0=0.004, K=1.2e5, xb=0.3, VmB=1.2e-5)], D=1e-16, cap=500)
+        r2 = K.run(dict(two, calls=[(100.0, 0.02)]))
+        d2 = r2["model"].pData
+        n2 = int(d2.n)
+        for j, (k, attr) in enumerate((("vf", "volFrac"), ("dens", "precipitateDensity"), ("ravg", "Ravg"))):
+            a = getattr(d2, attr)[:n2 + 1, 1]
+            if a[-1] > a[0]:
+                cfgs.append(dict(two, tag="stop-phase-gamma-%s" % k, stop=[(k, True, frac_thr(a, 0.5), "or", "gamma")], iter="euler" if j else "rk4", calls=[(100.0, 0.02)]))
+        a1, a2 = d2.volFrac[:n2 + 1, 0], d2.volFrac[:n2 + 1, 1]
+        if a1[-1] > a1[0] and a2[-1] > a2[0]:
+            cfgs.append(dict(two, tag="stop-phases-and", stop=[("vf", True, frac_thr(a1, 0.3), "and", "beta"), ("vf", True, frac_thr(a2, 0.6), "and", "gamma")], iter="euler", calls=[(100.0, 0.02)]))
+    except Exception:  # noqa  (the reference runs themselves are judged by the other checks)
+        pass
+    for c in cfgs:
+        if c.get("rerun", 1) is None:
+            del c["rerun"]
     return cfgs, ref
 
 
